@@ -22,6 +22,7 @@ type Env struct {
 	recv    *Val
 	errs    []string
 	patterns []string
+	triggers []string // explicit multi-patterns (trigger(...)) of the quantifier being evaluated
 }
 
 func (e *Env) state() *State {
@@ -288,10 +289,20 @@ func (e *Env) eval(x Expr) Val {
 		}
 		savedPats := e.patterns
 		e.patterns = nil
+		savedTrig := e.triggers
+		e.triggers = nil
 		body := e.eval(n.Body)
 		pats := e.patterns
 		e.patterns = savedPats
-		if len(n.Vars) == 1 && len(pats) > 0 {
+		trigs := e.triggers
+		e.triggers = savedTrig
+		if len(trigs) > 0 {
+			ann := ""
+			for _, t := range trigs {
+				ann += " :pattern (" + t + ")"
+			}
+			body.T = "(! " + body.T + ann + ")"
+		} else if len(n.Vars) == 1 && len(pats) > 0 {
 			seen := map[string]bool{}
 			ann := ""
 			for _, p := range pats {
@@ -781,6 +792,33 @@ func (e *Env) callExpr(n *ECall) Val {
 		case "addressModule":
 			fc.B.DeclFun("address_module", []string{"String", "String"}, "String")
 			return strVal("(address_module " + str(0) + " " + str(1) + ")")
+		case "joinFrom":
+			// joinFrom(a, sep, i): strings.Join(a[i:], sep)
+			fc.B.JoinFrom()
+			return strVal("(join_from " + argv(0).T + " " + str(1) + " " + argv(2).T + ")")
+		case "hexUpper":
+			// hexUpper(b): the upper-case hexadecimal rendering of the bytes (cmtbytes.HexBytes.String)
+			fc.B.DeclFun("hex_upper", []string{"String"}, "String")
+			fc.B.DeclFun("unhex_upper", []string{"String"}, "String")
+			t := "(hex_upper " + str(0) + ")"
+			fc.B.Assert(and(eq("(unhex_upper "+t+")", str(0)), eq("(str.len "+t+")", "(* 2 (str.len "+str(0)+"))"), not("(str.contains "+t+" \"/\")")))
+			return strVal(t)
+		case "builderText":
+			// builderText(sb): the text accumulated in a strings.Builder
+			v := argv(0)
+			if _, ok := v.Typ.(*types.Pointer); ok {
+				v = fc.load(e.cur, v)
+			}
+			fc.B.DeclFun("builder_text", []string{v.S}, "String")
+			return strVal("(builder_text " + v.T + ")")
+		case "trigger":
+			// trigger(t1, ..., tn): an explicit multi-pattern for the enclosing quantifier; evaluates to true
+			var ts []string
+			for i := range n.Args {
+				ts = append(ts, argv(i).T)
+			}
+			e.triggers = append(e.triggers, strings.Join(ts, " "))
+			return boolVal("true")
 		case "bech32enc":
 			fc.B.DeclFun("bech32_enc", []string{"String"}, "String")
 			return strVal("(bech32_enc " + str(0) + ")")
@@ -825,6 +863,25 @@ func (e *Env) callExpr(n *ECall) Val {
 			nv := Val{S: "Iface", T: "(mkI " + fc.B.Tag(v.Typ) + " " + fc.B.Box(v.Typ, v.T) + ")"}
 			nv.Fn = &FnVal{Special: "dyn", Data: []Val{v}}
 			return nv
+		case "appendAll":
+			// appendAll(a, b): append(a, b...) as the engine models it
+			a, b2 := argv(0), argv(1)
+			if strings.Contains(a.T, "qv!") || strings.Contains(b2.T, "qv!") {
+				fn := "append_" + sanitize(a.S)
+				fc.B.DeclFun(fn, []string{a.S, a.S}, a.S)
+				return Val{S: a.S, T: "(" + fn + " " + a.T + " " + b2.T + ")", Typ: a.Typ}
+			}
+			return (&Frame{fc: fc}).appendSlices(a, b2, a.Typ)
+		case "appendOne":
+			// appendOne(a, x): append(a, x) as the engine models it (same function symbol and argument shape)
+			a, v := argv(0), argv(1)
+			one := "(mkS false 1 (store ((as const (Array Int " + v.S + ")) " + fc.zero(v.Typ) + ") 0 " + v.T + "))"
+			if strings.Contains(a.T, "qv!") || strings.Contains(v.T, "qv!") {
+				fn := "append_" + sanitize(a.S)
+				fc.B.DeclFun(fn, []string{a.S, a.S}, a.S)
+				return Val{S: a.S, T: "(" + fn + " " + a.T + " " + one + ")", Typ: a.Typ}
+			}
+			return (&Frame{fc: fc}).appendSlices(a, Val{S: a.S, T: one, Typ: a.Typ}, a.Typ)
 		case "slice1":
 			// one-element slice literal, built exactly as the engine builds call-site argument arrays
 			v := argv(0)
